@@ -43,6 +43,8 @@ DECIDING = {
     "wrong_class_rejections": "wrong-class events that must raise TypeError",
     "unbound_uses": "class-level uses that must raise UnboundSignal",
     "owners_collected": "owners whose weak reference must die after the last strong reference is dropped",
+    "copied_owners": "copy.copy() of an owner after its signals were bound",
+    "super_access_first": "base declaration of an overridden signal reached first through super()",
     "contract_evaluations": "icontract post-condition on Signal.__get__ evaluated",
 }
 ASSUMPTIONS = [
@@ -209,6 +211,42 @@ async def scenario(case: dict[str, Any], out: dict[str, Any]) -> None:
                 bad("channel-unbound", f"class-level {how} on {a} raised {describe_exc(e)} instead of UnboundSignal")
             else:
                 bad("channel-unbound", f"class-level {how} on {a} did not raise UnboundSignal")
+    # ---- a shallow copy of an owner is a different instance: it must get its own channels
+    if kind != "slots":
+        import copy as _copy
+
+        orig = make_instance(cls, kind, 7)
+        first = {a: getattr(orig, a) for a in attr_ev}
+        clone = _copy.copy(orig)
+        inc("copied_owners")
+        for a in attr_ev:
+            b = getattr(clone, a)
+            if b is first[a]:
+                bad("channel-shared[copy]", f"copy.copy() of an owner shares the bound signal of attribute {a} with the original")
+            ref = getattr(b, "_instance", None)
+            ev = attr_ev[a](0)
+            try:
+                b.dispatch(ev)
+            except Exception as e:
+                bad("channel-dispatch-raised", f"dispatch on the copy raised {describe_exc(e)}")
+                continue
+            if ev.source is not clone:
+                bad("channel-source", f"event dispatched on a copied owner carries the {'original' if ev.source is orig else 'wrong'} instance as source")
+    # ---- reaching the base class' declaration of an overridden signal first (through super()) must not change what
+    #      the instance attribute resolves to
+    overridden = [a["name"] for a in spec["attrs"] if a["where"] == "override"] if spec["subclass"] else []
+    if overridden and kind != "frozen":
+        inst = make_instance(cls, kind, 8)
+        Base = cls.__mro__[1]
+        inc("super_access_first")
+        for a in overridden:
+            base_bound = getattr(super(cls, inst), a)
+            own = getattr(inst, a)
+            if own is base_bound:
+                bad("channel-shared[override]", f"after accessing the base class' declaration of {a} through super(), instance.{a} is the base declaration's bound signal")
+            if own.event_class is not attr_ev[a]:
+                bad("channel-event-class", f"instance.{a} carries event class {own.event_class.__name__} after super() access, declared {attr_ev[a].__name__}")
+        del Base
     # ---- garbage collection of owners (fresh instance; the bound signals stay referenced by the "user")
     if case.get("gc", True):
         alive, held = gc_check(cls, kind, list(attr_ev))
